@@ -80,6 +80,15 @@ rwlock_t active_instances_rwlock = RWLOCK_INITIALIZER;
 /* Backend instance id */
 int next_backend_desc = 0;
 
+#ifdef LIBERASURECODE_VERIF
+/* verification hook: a scheduler callback invoked at registry yield points */
+void (*liberasurecode_verif_yield)(int point, void *obj) = NULL;
+#define VERIF_YIELD(point, obj) \
+    do { if (liberasurecode_verif_yield) liberasurecode_verif_yield((point), (obj)); } while (0)
+#else
+#define VERIF_YIELD(point, obj) do { } while (0)
+#endif
+
 /**
  * Look up a backend instance by descriptor
  *
@@ -90,6 +99,7 @@ static ec_backend_t liberasurecode_backend_instance_lookup(int desc)
 {
     struct ec_backend *b = NULL;
     SLIST_FOREACH(b, &active_instances, link) {
+        VERIF_YIELD(1, b);
         if (b->idesc == desc)
             break;
     }
@@ -144,6 +154,7 @@ int liberasurecode_backend_instance_register(ec_backend_t instance)
     rc = rwlock_wrlock(&active_instances_rwlock);
     if (rc == 0) {
         SLIST_INSERT_HEAD(&active_instances, instance, link);
+        VERIF_YIELD(2, instance);
         desc = liberasurecode_backend_alloc_desc();
         if (desc <= 0)
             goto register_out;
@@ -167,6 +178,7 @@ int liberasurecode_backend_instance_unregister(ec_backend_t instance)
 {
     int rc = 0;  /* return call value */
 
+    VERIF_YIELD(3, instance);
     rc = rwlock_wrlock(&active_instances_rwlock);
     if (rc == 0) {
         SLIST_REMOVE(&active_instances, instance, ec_backend, link);
